@@ -1391,3 +1391,74 @@ func mismatchContinuesSearch(c *Ctx, rule string, pkgs ...string) {
 		c.R.Fail("%s: only %d name tests inside loops found", rule, n)
 	}
 }
+
+// deferredLiteralUsesDeliveredContext: what a deferred group runs later runs under the context it is dispatched with.
+func deferredLiteralUsesDeliveredContext(c *Ctx) {
+	c.R.Rule("deferred-literal-uses-delivered-context", "generated object functions: a literal handed to Concurrently on a field set the function does not dispatch itself (a deferred group: it is dispatched later, by processDeferredGroup, under a fresh response context) passes on the context it is called with, not the object function's captured one", 2)
+	n := 0
+	for _, g := range c.Gen {
+		for _, fn := range c.genFuncs(g) {
+			if fn.Parent() != nil || !isObjectFunc(fn) {
+				continue
+			}
+			own := map[ssa.Value]bool{}
+			for _, f2 := range an.WithClosures(fn) {
+				for _, call := range an.CallsIn(f2, func(_ ssa.CallInstruction, ci an.CalleeInfo) bool {
+					return ci.FullName() == "(*"+pkgGraphql+".FieldSet).Dispatch"
+				}) {
+					for _, r := range rootsOf(call.Common().Args[0], call, 0, map[ssa.Value]bool{}) {
+						own[r] = true
+					}
+				}
+			}
+			if len(own) == 0 {
+				continue
+			}
+			for _, call := range an.CallsIn(fn, func(_ ssa.CallInstruction, ci an.CalleeInfo) bool {
+				return ci.FullName() == "(*"+pkgGraphql+".FieldSet).Concurrently"
+			}) {
+				if call.Parent() != fn || len(call.Common().Args) < 3 {
+					continue
+				}
+				mine := false
+				for _, r := range rootsOf(call.Common().Args[0], call, 0, map[ssa.Value]bool{}) {
+					if own[r] {
+						mine = true
+					}
+				}
+				mc, ok := an.Strip(call.Common().Args[2]).(*ssa.MakeClosure)
+				if mine || !ok {
+					continue
+				}
+				lit := mc.Fn.(*ssa.Function)
+				n++
+				bad := ""
+				for _, b := range lit.Blocks {
+					for _, in := range b.Instrs {
+						ci, ok := in.(ssa.CallInstruction)
+						if !ok {
+							continue
+						}
+						for _, a := range ci.Common().Args {
+							if !isCtxT(a.Type()) {
+								continue
+							}
+							switch x := an.Strip(a).(type) {
+							case *ssa.FreeVar:
+								bad = c.ipos(in)
+							case *ssa.UnOp:
+								if _, isFV := x.X.(*ssa.FreeVar); isFV && x.Op == token.MUL {
+									bad = c.ipos(in)
+								}
+							}
+						}
+					}
+				}
+				c.R.Check(bad == "", c.fnKeyIn(g, fn)+"/deferred-literal", c.ipos(call), "the literal passes on the context it is called with", "the literal of a deferred group goes on with the object function's captured context ("+bad+"): the group's fields run under the response context of the payload the object was marshalled in, their errors are recorded there — after that payload has been sent — and the group's own payload arrives without them")
+			}
+		}
+	}
+	if n < 2 {
+		c.R.Fail("deferred-literal-uses-delivered-context: only %d deferred Concurrently calls found", n)
+	}
+}
